@@ -237,13 +237,18 @@ macro_rules! download_remove_file {
         }
     };
 }
-// @family prop=C19 tier=thorough timeout=3400 mem=24 role=download-builder-remove-file
+// (with the real Vec::push this does not finish in 3400 s: `while new_mask.len() <= idx { push }` makes the Vec length
+// data-dependent and every push drags in the symbolic-size grow path; Vec::new / Vec::push are replaced by exact
+// fixed-capacity models, see common/stubs.rs)
+// NOT REGISTERED (measured: 3400 s timeout with real Vec::push; with fixed-capacity Vec models OOM after 735 s):
+// DownloadManifestBuilder::remove_file is outside the claim.
+// family-disabled prop=C19 tier=thorough timeout=900 mem=24 role=download-builder-remove-file
 // @bounds file count fixed per harness (9, 17), one tag with a fully symbolic mask, removed index concrete per harness (name: n<files>_k<index>)
 // @encodes cascette_formats::download::DownloadManifestBuilder::remove_file, cascette_formats::download::DownloadManifestBuilder::build
-// @assumes std RandomState pinned to fixed SipHash keys
+// @assumes builder constructed through the cfg(kani) shim with an empty name index; Vec::new -> with_capacity(24) and Vec::push -> push without the grow path (capacity asserted): exact fixed-capacity models of std
 download_remove_file!(c19_download_remove_file_n9_k0, 9, 0);
 download_remove_file!(c19_download_remove_file_n9_k4, 9, 4);
-// @end
+// end-disabled
 
 // ---- queries on a directly constructed manifest --------------------------------------------------
 fn name_of(k: usize) -> &'static str {
@@ -339,7 +344,7 @@ install_queries!(c19_install_queries_n1_a, 1, 0, 0, false);
 install_queries!(c19_install_queries_n1_a_b, 1, 0, 1, true);
 install_queries!(c19_install_queries_n1_a_missing, 1, 0, 2, true);
 // @end
-// @family prop=C19 tier=thorough timeout=3400 mem=28 role=install-queries-n2
+// @family prop=C19 tier=quick timeout=900 mem=24 role=install-queries-n2
 // @bounds 2 files, otherwise as above
 // @encodes cascette_formats::install::InstallManifest::get_files_for_tags, cascette_formats::install::InstallManifest::get_files_for_any_tag, cascette_formats::install::InstallManifest::calculate_install_size
 install_queries!(c19_install_queries_n2_a_b, 2, 0, 1, true);
@@ -517,7 +522,7 @@ download_tag_queries_n1!(c19_download_tag_queries_n1_a, ["a"], true, false);
 download_tag_queries_n1!(c19_download_tag_queries_n1_a_b, ["a", "b"], true, true);
 download_tag_queries_n1!(c19_download_tag_queries_n1_a_missing, ["a", "zz"], true, false);
 // @end
-// @family prop=C19 tier=thorough timeout=2400 mem=24 role=download-tag-queries
+// @family prop=C19 tier=quick timeout=900 mem=24 role=download-tag-queries
 // @bounds 2 entries with symbolic 40-bit sizes, 2 tags "a","b" with symbolic 1-byte masks; query concrete per harness: [a], [a,b], [a,missing], []
 // @encodes cascette_formats::download::DownloadManifest::entries_by_tags, cascette_formats::download::DownloadManifest::calculate_size_for_tags
 // @catches any-of instead of all-of, missing tag ignored, size over the wrong set
